@@ -318,7 +318,7 @@ func checkC04(c *Ctx) (int, error) {
 	}
 	c.ev.Rule = fmt.Sprintf("%d streams (valid from 8 encoders incl. Flush points, and truncations) x source chunk schedules %v x Read schedules %v x bufio sizes %v x EOF-with-data, at every acceleration level; each schedule's (bytes, digest, final error) must equal the all-at-once schedule's; distinct by (stream, schedule)", len(streams), chunkSchedules, readSchedules, bufioSizes)
 	c.ev.Exhaustive = true
-	for _, cs := range cases[1:minInt(4, len(cases))] {
+	for _, cs := range spread(cases) {
 		c.ev.sample(map[string]interface{}{"stream": cs.Tag, "src": cs.Segs[0].Src, "reads": cs.Segs[0].Reads})
 	}
 	return c.readerRun("c04", cases, true)
